@@ -1,6 +1,6 @@
 (* C11 — message framing is independent of how the byte stream is chunked.
    Statements only; proofs in Proofs/LoaderProofs.v. *)
-From DV Require Import Lib.Base Wire.Message Proofs.LoaderProofs.
+From DV Require Import Lib.Base Wire.Message Proofs.LoaderProofs Proofs.BodyLocal Proofs.LoadLocal.
 Local Open Scope N_scope.
 
 (* Full statement: for every partition of every stream, the messages produced and
@@ -9,13 +9,26 @@ Local Open Scope N_scope.
 Definition C11_full_statement : Prop :=
   forall chunks, outcome (feed_all loader_new chunks) = outcome (feed loader_new (concat chunks) 0).
 
-(* Proved for all streams and partitions GIVEN that the verdict of load_message on
-   a complete message does not depend on the bytes that follow it in the buffer
-   ([load_local]); that locality is tied to the code by the correspondence run
-   (every case is run chunked and unsplit) and not yet proved of the model. *)
-Theorem C11_chunking_partial : load_local -> C11_full_statement.
-Proof. exact chunking_from_empty. Qed.
-Print Assumptions C11_chunking_partial.
+(* THE CHUNKING THEOREM, unconditional: for every stream and every partition of it
+   into reads, the loader model produces the same messages and the same corruption
+   verdict as for the unsplit stream. *)
+Theorem C11_chunking : C11_full_statement.
+Proof. exact chunking_unconditional. Qed.
+Print Assumptions C11_chunking.
+
+(* It rests on locality of load_message: the verdict on a COMPLETE message (as framed
+   by have_message) does not depend on the bytes that follow it in the buffer,
+   although the header validator walks the whole buffer.  (The earlier formulation
+   [load_local], for lengths not tied to the bytes, is false: [load_local_refuted].) *)
+Theorem C11_load_message_local : forall max le fl hl bl fds d c,
+  have_message max d = HaveOk le fl hl bl true ->
+  match load_message le fl hl bl fds d, load_message le fl hl bl fds (d ++ c) with
+  | inl m, inl m' => m = m'
+  | inr _, inr _ => True
+  | _, _ => False
+  end.
+Proof. exact load_local_from_have. Qed.
+Print Assumptions C11_load_message_local.
 
 (* the framing decision reads only the 16-byte fixed header *)
 Theorem C11_have_message_local : forall max d c, (16 <= length d)%nat ->
